@@ -817,8 +817,26 @@ pub fn c10_units(x: &str, tws: &[u8], cis: &[u8], base: &Cfg, ctx: &mut Ctx) {
 // ---------------------------------------------------------------------------------------------
 // C11
 
+/// longest physical line, not counting lines that lie wholly inside a multi-line token (the
+/// wrapper cannot do anything about those)
 fn max_line(o: &str) -> usize {
-    o.split('\n').map(|l| l.trim_end_matches('\r').len()).max().unwrap_or(0)
+    if !o.contains("'''") && !o.contains('{') && !o.contains("(*") {
+        return o.split('\n').map(|l| l.trim_end_matches('\r').len()).max().unwrap_or(0);
+    }
+    let toks = r::scan(o);
+    let spans: Vec<(usize, usize)> = toks.iter().filter(|t| t.text(o).contains('\n')).map(|t| (t.start, t.end)).collect();
+    let mut best = 0;
+    let mut pos = 0;
+    for l in o.split('\n') {
+        let (s, e) = (pos, pos + l.len());
+        pos = e + 1;
+        // wholly inside: the line starts after the token start and its terminator is still inside the token
+        let interior = spans.iter().any(|(ts, te)| s > *ts && e < *te);
+        if !interior {
+            best = best.max(l.trim_end_matches('\r').len());
+        }
+    }
+    best
 }
 fn line_count(o: &str) -> usize {
     o.split('\n').count()
@@ -908,9 +926,16 @@ fn c11_line_class(a: &str, b: &str) -> &'static str {
 
 pub fn c11_dense(x: &str, widths: &[u32], base: &Cfg, tag: Option<&'static str>, ctx: &mut Ctx) {
     use std::hash::{Hash, Hasher};
+    pasfmt_core::verif::reset();
     let outs: Vec<String> = widths.iter().map(|w| ctx.fmt(&base.with(|c| c.wrap = *w), x)).collect();
-    if !x.is_ascii() || r::scan(&outs[0]).iter().any(|t| t.text(&outs[0]).contains('\n')) {
-        ctx.count("c11.skipped-non-ascii-or-multiline-token");
+    // the stale child-line cache of the re-flow (the C03 finding) also makes results width dependent
+    let tag = if pasfmt_core::verif::snapshot().stale_child_cache_hits > 0 {
+        Some("stale-child-line-cache-during-string-reflow")
+    } else {
+        tag
+    };
+    if !x.is_ascii() {
+        ctx.count("c11.skipped-non-ascii");
         return;
     }
     let hashes: Vec<u64> = outs
